@@ -1191,6 +1191,7 @@ func (r *Runtime) typedArrayProto_subarray(call FunctionCall) Value {
 
 func (r *Runtime) typedArrayProto_toLocaleString(call FunctionCall) Value {
 	if ta, ok := r.toObject(call.This).self.(*typedArrayObject); ok {
+		ta.viewedArrayBuf.ensureNotDetached(true)
 		length := ta.length
 		var buf StringBuilder
 		for i := 0; i < length; i++ {
